@@ -43,6 +43,22 @@ def run(chk):
                     p = np.unravel_index(np.nanargmax(e), e.shape)
                     chk.fail(f"Jdet:{tag}", "|J| sqrt(det) != 1 or J != hy/Bp", dict(where, loc=loc, index=list(map(int, p)), err=float(e[p])))
                 npts += a["J"].size
+                # ---- closed forms in terms of the R, Bp, Bt, hy OF THE SAME GRID (orthogonal grids; g11 and g_33 on all grids)
+                if all(loc in A[k] for k in ("Btxy",)):
+                    R_, Bp_, Bt_, hy_ = a["Rxy"], a["Bpxy"], A["Btxy"][loc], a["hy"]
+                    forms = [("g11", (R_ * Bp_) ** 2), ("g_33", R_ ** 2)]
+                    if orth:
+                        forms += [("g22", 1.0 / hy_ ** 2), ("g33", (Bp_ ** 2 + Bt_ ** 2) / (R_ * Bp_) ** 2), ("g_22", hy_ ** 2 * (1.0 + Bt_ ** 2 / Bp_ ** 2)),
+                                  ("|g23|", np.abs(Bt_ / (hy_ * Bp_ * R_))), ("|g_23|", np.abs(Bt_ * hy_ * R_ / Bp_)), ("g_11", 1.0 / (R_ * Bp_) ** 2)]
+                    for nm, ref in forms:
+                        got = np.abs(a[nm.strip("|")]) if nm.startswith("|") else a[nm]
+                        okk = np.isfinite(ref) & np.isfinite(got)
+                        if not okk.any():
+                            continue
+                        e = np.abs(got - ref)[okk] / (np.abs(ref)[okk] + 1e-300)
+                        worst["closed"] = max(worst.get("closed", 0.0), float(e.max()))
+                        if e.max() > 1e-9:
+                            chk.fail(f"closed-form:{nm.strip('|')}:{tag}", f"{nm} is not its closed-form expression in the R, Bp, Bt, hy of the same grid", dict(where, loc=loc, max_rel_err=float(e.max())))
             # ---- y-z coupling against the zShift of the same grid (centre; finite difference of zShift_ylow)
             dy = A["dy"]["centre"]
             zs = A["zShift"]["ylow"]
